@@ -33,6 +33,7 @@ ENC_CONTENT = [(E, 'ber.encoder::BooleanEncoder.encodeValue'), (E, 'cer.encoder:
                (E, 'ber.encoder::NullEncoder.encodeValue'), (E, 'ber.encoder::IntegerEncoder.encodeValue'),
                (E, 'ber.encoder::ObjectIdentifierEncoder.encodeValue'),
                (E, 'ber.encoder::SequenceEncoder.encodeValue[value-object]'),
+               (E, 'ber.encoder::SequenceEncoder.encodeValue[value-object,any-size]'),
                (E, 'ber.encoder::OctetStringEncoder.encodeValue[value-object]'),
                (E, 'ber.encoder::SequenceOfEncoder._encodeComponents[value-object]'),
                (E, 'ber.encoder::BitStringEncoder.encodeValue[value-object]'),
@@ -341,7 +342,7 @@ PROPS['C13']['level_text'] = ('Identifier octets equal X.690 8.1.2 for every cla
                               'contract of encode); the tag algebra is proved on the real TagSet methods: implicit tagging replaces '
                               'exactly the outermost tag and keeps its form, explicit tagging adds one constructed tag and refuses '
                               'UNIVERSAL. Accept/reject against perturbed types and whole stacks are a bounded stand-in.')
-PROPS['C04']['contracts'] = PROPS['C04']['contracts'] + ENC_CONTENT[5:6]
+PROPS['C04']['contracts'] = PROPS['C04']['contracts'] + ENC_CONTENT[5:7]
 UN = 'contracts.univ_native'
 CHOICE = [(UN, 'type.univ::Choice.setComponentByPosition'), (UN, 'type.univ::Choice.clear'), (UN, 'type.univ::Choice.reset'),
           (UN, 'type.univ::Choice.__eq__[choice-vs-choice]')]
